@@ -74,6 +74,10 @@ HYDRATE = dict(SEEDED_G, **{"Connections": "TRUE"})
 # graph retention configured in the seed (graph vacuum runs) and a vector (b) that has incoming edges only
 SEEDED_RET = dict(SEEDED_G, **{"SeedTail": "FALSE", "SeedMaint": '"mc2"', "Maints": "<- c_Maints2"})
 
+# import from an empty database: snapshot first, then import + commit with no journaled write in between
+IMPORT0 = dict(BASE, **{"Imports": "TRUE", "Keys": "<- c_Empty", "KVals": "<- c_Empty", "Cfgs": "<- c_CfgsB", "Maints": "<- c_Empty",
+                        "ALs": "<- c_Empty", "Targets": "<- c_Empty", "MVals": "<- c_MVals1", "MaxFile": 5, "MaxRej": 0, "MaxCtr": 4})
+
 INVS = ["Inv_CleanRestart", "Inv_RestartIdempotent", "Inv_IdMaps", "Inv_ListedIsReadable", "Inv_FwdRevAgree", "Inv_OneActive", "Inv_NoEdgeToDead"]
 PROPS = ["Prop_RejectedNoChange", "Prop_MaintenanceInvisible", "Prop_ReopenIdentity", "Prop_DeleteTouchesOnlyIncident"]
 
@@ -99,8 +103,8 @@ def model_check(chk, name, consts, workers=None, timeout=900):
     return r
 
 
-def corpus(chk, name, consts, simulate=None, depth=None, workers=4, timeout=900, rejleaf=False, view=None):
-    cfg = make_cfg("SpecCorpus", consts, [], [], constraint="BoundRejLeaf" if rejleaf else "Bound", view=view or ("ViewRej" if rejleaf else "View"))
+def corpus(chk, name, consts, simulate=None, depth=None, workers=4, timeout=900, rejleaf=False, view=None, spec="SpecCorpus"):
+    cfg = make_cfg(spec, consts, [], [], constraint="BoundRejLeaf" if rejleaf else "Bound", view=view or ("ViewRej" if rejleaf else "View"))
     r = run_tlc("MC_Kektor", name + ".cfg", cfg_text=cfg, workers=workers, timeout=timeout,
                 simulate=simulate, depth=depth, seed_=vlib.seed() if simulate else None)
     if not simulate:
@@ -271,6 +275,30 @@ def run(prop, tier):
         for i, b in enumerate(b5):
             b["id"] = "im%d" % i
         plans.append((imp, b5))
+    if prop in ("C01", "C04"):
+        i0 = dict(IMPORT0, MaxOps=4 if quick else 5)
+        c0 = corpus(chk, "MC_Kektor_import0_corpus", i0, workers=8, timeout=3000)
+        def import_class(ops):
+            # "a persistence procedure (or a restart) directly before the import, and the import committed":
+            # nothing journaled between the image and the import
+            names = [o.get("op") for o in ops]
+            for i, nm in enumerate(names):
+                if nm == "VImport" and i > 0 and names[i - 1] in ("SaveSnapshot", "RewriteAOF", "Reopen", "VCompress", "VImportCommit", "VDeleteCut") \
+                        and "VImportCommit" in names[i + 1:]:
+                    return "admin_then_import"
+            return "other"
+        b0, _ = vlib.behaviours_from_corpus(c0, max_behaviours=200 if quick else 20000, rng=rng, stratum=import_class,
+                                            need=lambda ops: any(o.get("op") == "VImportCommit" and o.get("res") == "ok" for o in ops))
+        # BFS keeps one history per state, so "snapshot, then import + commit" (same final state as the shorter
+        # "import + commit") is in no first-found history: the transition corpus has it
+        w0 = corpus(chk, "MC_Kektor_import0_trans", dict(IMPORT0, MaxOps=4), spec="SpecCorpusT")
+        bw, _ = vlib.behaviours_from_corpus(w0, max_behaviours=150 if quick else 6000, rng=rng,
+                                            need=lambda ops: import_class(ops) == "admin_then_import")
+        for i, b in enumerate(b0):
+            b["id"] = "i0_%d" % i
+        for i, b in enumerate(bw):
+            b["id"] = "i0w_%d" % i
+        plans.append((i0, b0 + bw))
     if prop == "C05":
         # every (reachable state, rejected call) pair: the rejected call is the last step, the replayer appends restarts
         last_rej = lambda ops: ops[-1].get("res") == "err"
